@@ -83,6 +83,8 @@ def gen_cases(seed, n):
         text = G.pr_select(q)
         if i % 10 == 9:
             text = G.dollar(text)       # $x is the same variable as ?x
+        if i % 10 == 8:
+            text = G.with_prefix(text)  # PREFIX prologue, IRIs as prefixed names
         # the dataset is the result of a history: some quads (sharing terms with the kept ones) are inserted and deleted again
         junk = []
         for _ in range(rng.choice([0, 2, 3, 4])):
